@@ -500,6 +500,9 @@ func Run(sc *pw.Scenario) *simkit.Outcome {
 							err = os.Mkdir(p, 0o755)
 						}
 					}
+					// the change itself stamps wall-clock times; pin them (they reach archive headers)
+					setTimes(p, 1300000100, 0)
+					setTimes(filepath.Dir(p), 1300000101, 0)
 					log.Add(tk.ID, "mutate", fmt.Sprintf("%s %s size=%d err=%v", m.Op, m.Path, m.Size, err != nil))
 					out.Fault("tree-mutation/"+m.Op, 1)
 				}
